@@ -136,7 +136,9 @@ def handler(c):
             uni = StaticUniverse(list(c['universe']))
             if c.get('alpha_dynamic'):
                 # the universe-driven alpha model over a dynamic universe of its own (the construction model's universe is wider)
-                alpha = SingleSignalAlphaModel(mk_universe(['dynamic', c['alpha_dynamic']]), signal=c['signal'])
+                from qstrader.data.backtest_data_handler import BacktestDataHandler as _BDH
+                kw_a = {'data_handler': _BDH(StaticUniverse(['EQ:NOT-LISTED']), data_sources=[])} if c.get('t', 0) % 2 == 0 else {}
+                alpha = SingleSignalAlphaModel(mk_universe(['dynamic', c['alpha_dynamic']]), signal=c['signal'], **kw_a)
             else:
                 alpha = FixedSignalsAlphaModel(dict((a, w) for a, w in c['alpha']))
             opt = EqualWeightPortfolioOptimiser(scale=c['opt'][1]) if c.get('opt') else FixedWeightPortfolioOptimiser()
